@@ -174,7 +174,7 @@ class C34(dst.Check):
         'an origin in order, exclusive epochs not overlapping any other epoch of the target); if its state budget is '
         'exhausted the run is accepted (counted in probe_search_exhausted).',
         'Window snapshots are read by the target after a barrier that follows the closing synchronisation.',
-        'A wall-clock kill (60 s) or a reported deadlock is classified hang.',
+        'A wall-clock kill (20 s) or a reported deadlock is classified hang.',
     ]
     real_vs_stub = {'SMPI RMA (smpi_win.cpp, rma requests), locks, fences, PSCW': 'real', 'SimGrid kernel + network': 'real',
                     'MPI application': 'real (generated plan interpreter sim/mpicoll.c, rma mode)',
@@ -209,7 +209,7 @@ class C34(dst.Check):
         sd = '%s/c34' % scratch
         try:
             rc, out, err, to = mc.run_smpi(sd, plan['np'], plan['plat'], plan['hosts'], plan['cfg'],
-                                           self._text_plan(plan), timeout=60)
+                                           self._text_plan(plan), timeout=20)
         finally:
             mc.cleanup(sd)
         W, G, E, D, order = {}, {}, [], set(), []
